@@ -931,3 +931,43 @@ package flags
 //@   loop 3 decreases pos
 //@   at call strings.TrimSpace #2: 1 <= pos && pos < l && use(nwd_split, line, pos)
 //@   ensures[C17] nwd(r) == nwd(s)
+
+// ===================================================================
+// ini.go: reading
+// ===================================================================
+
+//@ assumed func bufio.NewReader(rd io.Reader) (r *bufio.Reader)
+//@   ensures r != nil && ncalls(bufio.Reader.ReadLine) <= readBound(r)
+// The input is finite: ReadLine can be called at most readBound(b) times.
+//@ assumed func readBound(b *bufio.Reader) (n int)
+//@   pure
+//@ assumed func bufio.Reader.ReadLine(b *bufio.Reader) (line []byte, isPrefix bool, err error)
+//@   traced
+//@   ensures ncalls(bufio.Reader.ReadLine) <= readBound(b)
+//@   ensures is(err, *Error) ==> as(err, *Error) != nil
+//@ assumed func strings.SplitN(s string, sep string, n int) (r []string)
+//@   pure
+//@   ensures len(r) >= 1 && (n > 0 ==> len(r) <= n)
+//@   ensures n == 2 ==> (len(r) == 2) == contains(s, sep)
+
+//@ func readFullLine(reader *bufio.Reader) (s string, err error)
+//@   props C14 C04
+//@   traced
+//@   requires reader != nil && ncalls(bufio.Reader.ReadLine) <= readBound(reader)
+//@   loop 1 invariant ncalls(bufio.Reader.ReadLine) <= readBound(reader)
+//@   loop 1 decreases readBound(reader) - ncalls(bufio.Reader.ReadLine)
+//@   ensures[C14] err != nil ==> s == ""
+//@   ensures[C14] ncalls(bufio.Reader.ReadLine) > old(ncalls(bufio.Reader.ReadLine)) && ncalls(bufio.Reader.ReadLine) <= readBound(reader)
+//@   ensures is(err, *Error) ==> as(err, *Error) != nil
+
+//@ func readIni(contents io.Reader, filename string) (r *ini, err error)
+//@   props C14 C04
+//@   let l0 := ncalls(readFullLine) - nfails(readFullLine)
+//@   loop 1 invariant ret != nil && reader != nil && !isnil(ret.Sections) && ret.File == filename
+//@   loop 1 invariant lineno == (ncalls(readFullLine) - nfails(readFullLine)) - l0
+//@   loop 1 invariant indom(ret.Sections, sectionname)
+//@   loop 1 invariant ncalls(bufio.Reader.ReadLine) <= readBound(reader)
+//@   loop 1 decreases readBound(reader) - ncalls(bufio.Reader.ReadLine)
+//@   ensures[C14] err == nil ==> r != nil && !isnil(r.Sections) && r.File == filename
+//@   ensures[C14] is(err, *IniError) ==> as(err, *IniError) != nil && as(err, *IniError).LineNumber == uint((ncalls(readFullLine) - nfails(readFullLine)) - l0) && as(err, *IniError).LineNumber >= 1 && as(err, *IniError).File == filename
+//@   ensures[C14] err != nil ==> r == nil
